@@ -35,6 +35,8 @@ type CutResult struct {
 	Reachable bool     // sink still reachable with all success edges removed
 	Instances []string // positions of the If instructions that matched
 	Witness   []string // surviving path, one entry per block
+	Avoided   int      // number of times a required-effect block stopped the traversal
+	Edges     map[[2]int]bool // traversed CFG edges (block indices), filled when no sink is given
 }
 
 type cutState struct {
@@ -48,6 +50,12 @@ type cutState struct {
 // when a branch condition is decided by the value a phi takes on the edge by
 // which its block was entered, only the consistent successor is followed.
 func CutReach(p *Prog, fn *ssa.Function, g Guard, sinks ...*ssa.BasicBlock) CutResult {
+	return CutReachAvoid(p, fn, g, nil, sinks...)
+}
+
+// CutReachAvoid is CutReach with, in addition, a set of blocks that count as
+// "passed through a required effect": they are never entered.
+func CutReachAvoid(p *Prog, fn *ssa.Function, g Guard, avoid map[*ssa.BasicBlock]bool, sinks ...*ssa.BasicBlock) CutResult {
 	var res CutResult
 	if fn == nil || len(fn.Blocks) == 0 {
 		return res
@@ -119,6 +127,16 @@ func CutReach(p *Prog, fn *ssa.Function, g Guard, sinks ...*ssa.BasicBlock) CutR
 		for i, s := range succs {
 			if !allowed[i] {
 				continue
+			}
+			if avoid[s] && !isSink[s] {
+				res.Avoided++
+				continue
+			}
+			if len(sinks) == 0 {
+				if res.Edges == nil {
+					res.Edges = map[[2]int]bool{}
+				}
+				res.Edges[[2]int{b.Index, s.Index}] = true
 			}
 			env := n.env
 			// resolve phis of s for the edge b->s
